@@ -112,6 +112,11 @@ def replay_numpy(req, tmp):
         kw['samples'] = z0 + dz * np.arange(dims[2])
     path = os.path.join(tmp, 'out.sgz')
     what = 'NumpyConverter(%s cube).run(bits_per_voxel=%s, blockshape=%s)' % (dims, opts.get('bpv_in', rate), tuple(opts.get('bs_in', bs)))
+    if req.get('prop') == 'C18':
+        def convert():
+            with NumpyConverter(cube, **kw) as conv:
+                quiet(conv.run, path, bits_per_voxel=opts.get('bpv_in', rate), blockshape=tuple(opts.get('bs_in', bs)))
+        return crash_replay(req, convert, path, tmp, dims, False, what)
     try:
         with NumpyConverter(cube, **kw) as conv:
             if opts.get('runs') == 2:
@@ -198,3 +203,98 @@ def replay_numpy(req, tmp):
     finally:
         r.close()
     return dict(reproduced=False, detail='no replayer for property %s' % prop)
+
+
+# ------------------------------------------------------------------------------------------------ C18 crash prefixes
+class RecordingFile:
+    def __init__(self, f, log):
+        self.f, self.log, self.name = f, log, f.name
+
+    def write(self, b):
+        self.log.append((self.f.tell(), bytes(b)))
+        return self.f.write(b)
+
+    def __getattr__(self, n):
+        return getattr(self.f, n)
+
+    def __enter__(self):
+        return self
+
+    def __exit__(self, *a):
+        self.f.close()
+        return False
+
+
+def record_write_sequence(convert, out):
+    """Run convert() with every handle opened on `out` for writing wrapped by a recorder -> [(pos, bytes)] in order."""
+    import builtins
+    from seismic_zfp import conversion as C
+    log = []
+
+    def ropen(name, mode='r', *a, **k):
+        f = builtins.open(name, mode, *a, **k)
+        if name == out and ('w' in mode or '+' in mode):
+            return RecordingFile(f, log)
+        return f
+    C.open = ropen
+    try:
+        convert()
+    finally:
+        del C.open
+    return log
+
+
+def crash_replay(req, convert, out, tmp, dims, is2d, what):
+    import seismic_zfp.read as R
+    import segyio
+    m_, o = req['model'], req.get('opts') or {}
+    log = record_write_sequence(convert, out)
+    p, cut = m_['crash_prefix'], m_.get('crash_cut', 0)
+    if p > len(log):
+        return dict(reproduced=False, detail='%s: the real write sequence has only %d writes' % (what, len(log)))
+    buf = bytearray()
+    for k, (pos, b) in enumerate(log[:p + 1]):
+        if k == p:
+            if p == len(log):
+                break
+            b = b[:cut]
+        if pos > len(buf):
+            buf += bytes(pos - len(buf))
+        buf[pos:pos + len(b)] = b
+    part = os.path.join(tmp, 'partial.sgz')
+    with open(part, 'wb') as f:
+        f.write(bytes(buf))
+    call = o.get('call', 'header')
+    ntr = dims[0] if is2d else dims[0] * dims[1]
+
+    def run(path):
+        r = R.SgzReader(path)
+        try:
+            if call == 'header':
+                h = quiet(r.gen_trace_header, m_.get('trace', 0))
+                return tuple(int(h[segyio.tracefield.TraceField(f)]) for f in specio.TRACE_FIELDS)
+            if call == 'tracefield':
+                g = np.asarray(quiet(r.get_tracefield_values, o.get('field', 189))).reshape(-1)
+                return (g.size, int(g[m_.get('g', 0)]))
+            if call == 'voxel':
+                if is2d:
+                    return np.asarray(quiet(r.read_subplane, m_['t'], m_['t'] + 1, m_['z'], m_['z'] + 1)).tobytes()
+                return np.asarray(quiet(r.read_subvolume, m_['i'], m_['i'] + 1, m_['x'], m_['x'] + 1, m_['z'], m_['z'] + 1)).tobytes()
+            if call == 'hash':
+                return r.get_source_data_hash()
+            return (r.n_samples, r.tracecount)
+        finally:
+            r.close()
+    try:
+        want = run(out)
+    except Exception as e:
+        want = ('raises', type(e).__name__)
+    state = 'after %d of %d writes%s' % (p, len(log), ' + %d bytes of the next' % cut if cut else '')
+    try:
+        got = run(part)
+    except Exception as e:
+        return dict(reproduced=False, detail='%s: partial file (%s) refused: %s' % (what, state, type(e).__name__))
+    if got != want:
+        return dict(reproduced=True, detail='%s interrupted %s: %s on the partial file returns %s, on the complete file %s' % (
+            what, state, call, str(got)[:80], str(want)[:80]), extra=dict(outcome='crash-' + call, writes=len(log), prefix=p))
+    return dict(reproduced=False, detail='%s: partial file (%s) reads like the complete file' % (what, state))
